@@ -160,7 +160,7 @@ def run(res, tier, seed):
     # ---- the monitor judges every event of R and T
     lines = open(t_replay).read().splitlines(keepends=True) + open(t_rand).read().splitlines(keepends=True)
     events = {}
-    served = refused = conform_candidates = 0
+    served = refused = conforming = 0
     for ln in lines:
         e = json.loads(ln)
         if e["ev"] == "harness-error":
@@ -200,21 +200,23 @@ def run(res, tier, seed):
                                                       vlib.workdir(f"x02_s{a[0]}"), a[1], 3000), enumerate(files)))
     mism = [m for o in outs for m in o[0]]
     bad_cases = {m["case"] for m in mism}
-    # against vacuity: transfers that conform, in one message; refusals
+    # against vacuity (independent of the verdicts): whole-zone answers and refusals were seen
     for cid, ev in events.items():
-        if ev["ev"] == "server" and cid not in bad_cases and ev["answers"] >= 4 and ev["policy"] == "all" and ev["req"]["qtype"] == "AXFR":
+        if ev["ev"] == "server" and ev["answers"] >= 4 and ev["policy"] == "all" and ev["req"]["qtype"] == "AXFR":
             served += 1
-            res.sample({"server_case": {k: ev[k] for k in ("req", "policy", "sign", "store", "zone_records")},
-                        "messages": ev["nmsgs"], "answer_records": ev["answers"]}, cap=2)
+            if cid not in bad_cases:
+                conforming += 1
+                res.sample({"server_case": {k: ev[k] for k in ("req", "policy", "sign", "store", "zone_records")},
+                            "messages": ev["nmsgs"], "answer_records": ev["answers"]}, cap=2)
     if served == 0 or refused == 0:
-        raise vlib.ToolError(f"vacuous run: conforming transfers={served} refusals={refused}")
+        raise vlib.ToolError(f"vacuous run: whole-zone answers={served} refusals={refused}")
     # the driver's plain comparison of client cases and the monitor must agree
     mon_bad = {m["case"] for m in mism if m["kind"] == "client" and m["case"] in by_id}
     if mon_bad != rust_bad:
         raise vlib.ToolError(f"replay comparison and monitor disagree on client cases: {sorted(mon_bad ^ rust_bad)[:10]}")
     res.traces += len(lines)
     res.extra.update({"generated_cases_replayed": len(cases), "random_cases_recorded": n_rand, "events_judged": len(lines),
-                      "conforming_transfers": served, "refusals": refused, "whole_multi_message_transfers_delivered": whole_multi,
+                      "whole_zone_answers": served, "conforming_transfers": conforming, "refusals": refused, "whole_multi_message_transfers_delivered": whole_multi,
                       "events_rejected_by_monitor": len(bad_cases)})
     for m in mism:
         detail = dict(m)
